@@ -46,11 +46,13 @@ cutoff : 4.0
 O-O : shared 1000.0 0.3
 U-O : shared 650.0 0.4
 U-U : >0 as.buck 500.0 0.4 2.0 >=3.0 as.constant 0.75
+Zr-O : inner 0.7
+Zr-Zr : inner 0.9
 
 [Potential-Form]
 shared(r, A, rho) = A*exp(-r/rho) + inner(r, rho)
 inner(r, s) = s/r^4
-""", [['pair', 0, 1.0], ['pair', 1, 1.0], ['pair', 2, 3.0], ['pair', 2, 2.0]])
+""", [['pair', 0, 1.0], ['pair', 1, 1.0], ['pair', 2, 3.0], ['pair', 2, 2.0], ['pair', 3, 1.0], ['pair', 4, 1.0]])
 MODELS['eamU'] = ("""[Tabulation]
 target : setfl
 nr : 4
@@ -233,7 +235,7 @@ def cases(tier):
         for k in range(min(2 if tier == 'quick' else 3, len(MODELS[n][1]))):
             alphabet.append(['E', n, k])
     # every model has at least its boundary probes in the alphabet
-    extra = [['E', 'pairA', 2], ['E', 'pairA', 3], ['E', 'pairA', 4], ['E', 'pairA', 5], ['E', 'pairB', 2]]
+    extra = [['E', 'pairA', 2], ['E', 'pairA', 3], ['E', 'pairA', 4], ['E', 'pairA', 5], ['E', 'pairB', 2], ['E', 'pairB', 4]]      # (pairB probe 4: a form used directly that another form also calls)
     for e in extra:
         if e not in alphabet:
             alphabet.append(e)
@@ -261,6 +263,19 @@ def cases(tier):
     for depth in ((2,) if tier == 'quick' else (2, 3)):
         for seq in itertools.product(reuse, repeat=depth):
             out.append(dict(kind='api-reuse', seq=[list(x) for x in seq]))
+    # OUTPUT_FILE is the process's standard output (potable model /dev/stdout | gzip > TABLE.gz): the pipe carries the table and nothing else
+    for n in NAMES:
+        if n != 'excelP':
+            out.append(dict(kind='stdout-alias', model=n))
+    # two threads tabulating at the same time, under a controlled scheduler: thread A is pre-empted at its i-th function evaluation, thread B runs
+    # up to its j-th evaluation, A runs to completion, then B (at most two pre-emptions; every (i, j) in the thorough tier)
+    pairs = [(t, t) for t in REUSE_TARGETS] + [('LAMMPS', 'DLPOLY'), ('DLPOLY', 'GULP'), ('setfl', 'setfl_fs'), ('setfl', 'eam_adp'), ('DL_POLY_EAM', 'DL_POLY_EAM_fs'), ('setfl', 'DL_POLY_EAM')]
+    for ta, tb in pairs:
+        na, nb = thread_evals(ta, 0), thread_evals(tb, 1)
+        js = range(1, nb + 1) if tier != 'quick' else sorted(set([1, 2, nb // 2, nb - 1, nb]))
+        for i in range(1, na + 1):
+            for j in js:
+                out.append(dict(kind='threads', a=ta, b=tb, i=i, j=j))
     # the potable command line writing, one run after the other, into the SAME OUTPUT_FILE: every ordered sequence of (model, size)
     alpha = [[n, big] for n in NAMES for big in (0, 1)]
     for depth in ((2,) if tier == 'quick' else (2, 3)):
@@ -424,6 +439,136 @@ def reuse_write(objs, target, grid):
     return fp.getvalue()
 
 
+class _Point(object):
+    """a scheduling point in front of every evaluation of a model function"""
+    def __init__(self, f, sched, tid):
+        self.f, self.sched, self.tid = f, sched, tid
+
+    def __call__(self, x):
+        self.sched.point(self.tid)
+        return self.f(x)
+
+
+class _Sched(object):
+    """cooperative two-thread scheduler: exactly one thread runs at any time; control changes hands only at scheduling points
+    (A -> B at A's i-th point, B -> A at B's j-th point) and when a thread ends"""
+    def __init__(self, i, j):
+        import threading
+        self.i, self.j = i, j
+        self.count = [0, 0]
+        self.phase = 0
+        self.sem = [threading.Semaphore(0), threading.Semaphore(0)]
+        self.done = [False, False]
+        self.trace = []
+
+    def point(self, tid):
+        self.count[tid] += 1
+        self.trace.append(tid)
+        if tid == 0 and self.phase == 0 and self.count[0] == self.i:
+            self.phase = 1
+            self.sem[1].release()
+            self.sem[0].acquire()
+        elif tid == 1 and self.phase == 1 and self.count[1] == self.j and not self.done[0]:
+            self.phase = 2
+            self.sem[0].release()
+            self.sem[1].acquire()
+
+    def finished(self, tid):
+        self.done[tid] = True
+        self.sem[1 - tid].release()
+
+
+def thread_objects(variant, wrap=None):
+    """objects of thread `variant` (0 / 1): same shapes, different numbers; wrap(f) puts a scheduling point in front of every function"""
+    import atsim.potentials as ap
+    import math
+    w = wrap or (lambda f: f)
+    c = 1.0 + 0.5 * variant
+    pots = [ap.Potential('A', 'A', w(lambda r: c * 2.0 * math.exp(-r))), ap.Potential('B', 'A', w(lambda r: c + 0.5 * r * r)), ap.Potential('B', 'B', w(lambda r: 3.0 * c / (1.0 + r)))]
+    dens = {'A': w(lambda r: 0.5 * c * math.exp(-0.7 * r)), 'B': w(lambda r: 0.8 * c * math.exp(-0.7 * r))}
+    dfs = {'A': {'A': w(lambda r: 0.3 * c * math.exp(-r)), 'B': w(lambda r: 0.7 * c / (1 + r))}, 'B': {'A': w(lambda r: 0.2 * c * math.exp(-r)), 'B': w(lambda r: 0.9 * c / (1 + r))}}
+    emb = {'A': w(lambda rho: -c * math.sqrt(rho + 1.0)), 'B': w(lambda rho: 0.1 * c * rho * rho - rho)}
+    eam = [ap.EAMPotential(x, z, m_, emb[x], dens[x], 2.5, 'fcc') for x, z, m_ in (('A', 1, 1.5), ('B', 2, 4.5))]
+    eamfs = [ap.EAMPotential(x, z, m_, emb[x], dfs[x], 2.5, 'fcc') for x, z, m_ in (('A', 1, 1.5), ('B', 2, 4.5))]
+    dip = [ap.Potential('A', 'B', w(lambda r: 0.5 * c - 0.1 * r))]
+    quad = [ap.Potential('B', 'B', w(lambda r: 0.75 * c * math.exp(-r)))]
+    return dict(pots=pots, eam=eam, eamfs=eamfs, dip=dip, quad=quad)
+
+
+_THREAD_REF = {}
+
+
+def thread_ref(target, variant):
+    """(sequential output, number of evaluations) of thread `variant` writing `target`"""
+    if (target, variant) not in _THREAD_REF:
+        n = [0]
+
+        def w(f):
+            def g(x):
+                n[0] += 1
+                return f(x)
+            return g
+        _THREAD_REF[(target, variant)] = (reuse_write(thread_objects(variant, w), target, 0), n[0])
+    return _THREAD_REF[(target, variant)]
+
+
+def thread_evals(target, variant):
+    return thread_ref(target, variant)[1]
+
+
+def run_stdout_alias(case):
+    import tempfile
+    name = case['model']
+    d = tempfile.mkdtemp(dir=R.scratch())
+    cfg = os.path.join(d, 'm.aspot')
+    with open(cfg, 'w') as f:
+        f.write(MODELS[name][0])
+    rc, so, se = seams.fresh_process([os.path.join(boot.VERIF, 'tools', 'potable_main.py'), cfg, '/dev/stdout'], hashseed='0')
+    want = refs()[name]['bytes']
+    got = so.decode('utf-8', 'replace')
+    viol = []
+    if rc != 0 or got != want:
+        viol.append(dict(sig='piped-output-differs-from-file-output', msg='potable %s /dev/stdout (exit %r): the pipe received %d bytes, the table written to a file has %d bytes (first difference at %d: %r)'
+                         % (name, rc, len(got), len(want), first_diff(got, want), got[max(0, first_diff(got, want) - 20):first_diff(got, want) + 60]), detail={}))
+    return dict(outcome='ok:stdout-alias' if not viol else 'violation', nontrivial=True, evals=1, violations=viol, states=['stdout-alias'], transitions=1, traces=1)
+
+
+def run_threads(case):
+    import threading
+    sched = _Sched(case['i'], case['j'])
+    out = [None, None]
+    err = [None, None]
+
+    def body(tid, target):
+        try:
+            if tid == 1:
+                sched.sem[1].acquire()
+            objs = thread_objects(tid, lambda f: _Point(f, sched, tid))
+            out[tid] = reuse_write(objs, target, 0)
+        except BaseException as e:  # noqa
+            err[tid] = e
+        finally:
+            sched.finished(tid)
+    ths = [threading.Thread(target=body, args=(0, case['a'])), threading.Thread(target=body, args=(1, case['b']))]
+    for t in ths:
+        t.daemon = True
+        t.start()
+    for t in ths:
+        t.join(60)
+    viol = []
+    if any(t.is_alive() for t in ths):
+        viol.append(dict(sig='threads-deadlock', msg='schedule (i=%d, j=%d) of %s | %s did not terminate' % (case['i'], case['j'], case['a'], case['b']), detail={}))
+    for tid, tgt in ((0, case['a']), (1, case['b'])):
+        ref, _n = thread_ref(tgt, tid)
+        if err[tid] is not None:
+            viol.append(dict(sig='threads-exception:%s' % type(err[tid]).__name__, msg='thread %d (%s), schedule (i=%d, j=%d): %s: %s' % (tid, tgt, case['i'], case['j'], type(err[tid]).__name__, err[tid]), detail={}))
+        elif out[tid] != ref and not viol:
+            viol.append(dict(sig='output-depends-on-concurrent-tabulation', msg='threads writing %s and %s; A pre-empted at its evaluation %d, B at its evaluation %d: the %s table of thread %d differs from its sequential output (first difference at %d)'
+                             % (case['a'], case['b'], case['i'], case['j'], tgt, tid, first_diff(out[tid] or '', ref)), detail={}))
+    return dict(outcome='ok:threads' if not viol else 'violation', nontrivial=True, evals=len(sched.trace), violations=viol,
+                states=['threads:%s|%s' % (case['a'], case['b'])], transitions=len(sched.trace), traces=1)
+
+
 _REUSE_REF = {}
 
 
@@ -480,6 +625,10 @@ def run_case(case):
         return run_outfile(case)
     if case['kind'] == 'api-reuse':
         return run_api_reuse(case)
+    if case['kind'] == 'threads':
+        return run_threads(case)
+    if case['kind'] == 'stdout-alias':
+        return run_stdout_alias(case)
     if case['kind'] == 'api-share':
         from . import C07
         res = C07.run_shared(case)
